@@ -53,8 +53,8 @@ func walkMessage(c *walkCase) []byte {
 	}
 	cells = append(cells, 0x7f) // running off the layout is not a name
 	m := []byte{0, 0, 0x81, 0x80, 0, 0, 0, 2, 0, 0, 0, 0}
-	m = append(m, 0)                  // owner: root
-	m = append(m, u16(9999)...)       // unknown type: opaque RDATA
+	m = append(m, 0)            // owner: root
+	m = append(m, u16(9999)...) // unknown type: opaque RDATA
 	m = append(m, u16(1)...)
 	m = append(m, u32(0)...)
 	m = append(m, u16(len(cells))...)
